@@ -328,6 +328,8 @@ def run(rep, tier):
             rep.actual_sample({"desc": repr(d)[:200], "source": res["sample_src"], "exit_status": res["code"]})
         if res["viol"]:
             rep.violation(*res["viol"])
+    from .. import rawfiles
+    rawfiles.run(rep, PROP)
     # memory-error sanitizer over a sample of the same workload
     vg_sample = [d for d in descs if d[0] != "progen"][:: (40 if tier == "quick" else 6)] + [d for d in descs if d[0] == "progen"][: (40 if tier == "quick" else 600)]
     vg_runs = 0
